@@ -1392,12 +1392,40 @@ def run_prepass(chk, F, CG, fields=("depends", "changes"), rid="R-PREPASS"):
         ctor = fn
     if ctor is None:
         raise AnalysisBroken("TypeChecker constructor not found")
-    # the writer of the fields must be TypeChecker::visitFunction (otherwise the premise of this rule is gone)
-    vf = _fn(F, "visitFunction") if False else F.fn("UTAP::TypeChecker::visitFunction")
-    writes = {n.get("name") for n in walk(vf["body"]) if n.get("k") == "member" and n.get("of") == "UTAP::function_t"}
+    # the writer of the fields must be TypeChecker::visitFunction (otherwise the premise of this rule is gone) - itself or
+    # a part split off it.  And nobody else: the summaries are computed in the order in which Document::accept reaches the
+    # functions (declaration before use, R-SUMMARYORDER), so a second place that computes them - a pre-pass over some of
+    # the functions - sees the summaries of the functions they call still empty (round 8: dynamic templates summarised in
+    # visitDocBefore, before the global functions they call)
+    vf = F.fn("UTAP::TypeChecker::visitFunction")
+    vfx = expanded_fn(vf, F, accept=lambda t: t.get("cls") == "UTAP::TypeChecker" and t.get("name") != "visitFunction", maxdepth=2)
+    writes = {n.get("name") for n in walk(vfx["body"]) if n.get("k") == "member" and n.get("of") == "UTAP::function_t"}
     for fld in fields:
         if fld not in writes:
             raise AnalysisBroken("TypeChecker::visitFunction no longer computes function_t::%s" % fld)
+    writers = {}
+    for f in F.functions.values():
+        fl = f.get("file") or ""
+        if f.get("body") is None or fl.startswith("/usr") or "/test/" in fl:
+            continue
+        for x in walk(f["body"]):
+            if x.get("k") in ("construct", "decl") and ("CollectChangesVisitor" in short(x) or "CollectDependenciesVisitor" in short(x)) and \
+                    any(y.get("k") == "member" and y.get("name") in fields and y.get("of") == "UTAP::function_t" for y in walk(x)):
+                writers.setdefault(f["q"], f)
+    allowed = {"UTAP::TypeChecker::visitFunction", "UTAP::StatementBuilder::decl_func_end"}
+    for q, f in sorted(writers.items()):
+        if q in allowed:
+            continue
+        callers = sorted({g["q"] for g in F.functions.values() if g.get("body") is not None and g is not f and
+                          any(c.get("fn") == q for c in calls(g["body"]))})
+        chk.ob(rid, "single writer|%s" % q.split("::")[-1], set(callers) <= allowed,
+               "%s computes function summaries (function_t::%s) and is called from %s: summaries computed outside the traversal "
+               "of Document::accept do not follow declaration order - the functions called by the summarised ones may not have "
+               "been summarised yet, and their writes are not counted" %
+               (q, "/".join(fields), ", ".join(c.split("::")[-1] for c in callers if c not in allowed) or "-"),
+               "%s:%s" % (f["file"], f["line"]))
+    chk.ob(rid, "single writer", True, "", "%s:%s" % (vf["file"], vf["line"]),
+           sample="function summaries are written by %s only" % ", ".join(sorted(q.split("::")[-1] for q in writers)))
     classes = []
     for c in calls(ctor["body"]):
         if c.get("name") == "accept" and c.get("args"):
